@@ -546,7 +546,23 @@ def _asan_site(text, flavour):
     """(kind, function) of a sanitizer SUMMARY line; the offset is symbolised after the fact (symbolize=0 in the child)."""
     mm = re.search(r"SUMMARY: (?:AddressSanitizer|UndefinedBehaviorSanitizer): (\S+) \((\S+?)\+(0x[0-9a-f]+)\)", text)
     if not mm:
-        return None
+        ub = re.search(r"(\S+?):(\d+):\d+: runtime error: (.*)", text)
+        if not ub:
+            return None
+        path, line, msg = ub.group(1), int(ub.group(2)), ub.group(3)
+        kind = "float-cast-overflow" if "outside the range of representable values" in msg else \
+            re.sub(r"[^a-z]+", "-", msg.lower())[:40].strip("-")
+        fn = "?"
+        try:
+            src = open(path).read().split("\n")
+            for k in range(min(line, len(src)) - 1, -1, -1):
+                h = re.match(r"^[A-Za-z_][\w\s\*]*?\b(\w+)\s*\([^;]*$", src[k])
+                if h and not src[k].startswith((" ", "\t")):
+                    fn = h.group(1)
+                    break
+        except OSError:
+            pass
+        return "ubsan-" + kind, fn
     kind, lib, off = mm.groups()
     fn = "?"
     try:
